@@ -15,12 +15,15 @@ Conventions
   *runtime* panic — `runtime.Error` — which parseFrame re-panics: the goroutine dies).
 * every primitive reader is `slice guard need`: the code checks `len(f.buf) < guard` (→ panic with an
   error value → `err`) and then slices `need` bytes off the buffer (→ runtime panic → `crash` when fewer
-  are there). guard = need everywhere except readInetAdressOnly (guard 1, need 4/16) — a defect that
-  is modelled as it is.
+  are there). guard = need everywhere (readInetAdressOnly checks `len(f.buf) < int(size)` since the
+  repair of KF-C05-5).
 * `proto` is the framer's protocol version (`newFramer(c.compressor, c.version)`), NOT the version byte
   of the received header; all version dependent layouts use `proto`, as the code does.
 * not modelled: Go's stack limit for deeply nested type descriptors (fuel = buffer length is never
-  exhausted, see `readTypeInfo`), memory exhaustion of `make([]int, pkeyCount)` for a huge positive count.
+  exhausted, see `readTypeInfo`).
+* element counts that are used as a `make` size before the elements are read (partition-key indexes,
+  tuple / UDT element descriptions) are checked against the bytes left first (`needBytes`, the repairs of
+  KF-C05-6/7/8): a negative or impossible count is a returned error.
 * readTypeInfo is the code AFTER the repair of KF-C04-1 (a custom class that names a bare collection /
   tuple marshal class stays a custom type).
 Core Lean only (compiled into the native driver).
@@ -126,13 +129,13 @@ def readBytes : P (Option Bytes) := do
 /-- readConsistency -/
 def readConsistency : P Nat := readShort
 
-/-- readInetAdressOnly (frame.go:1883-1903). The second guard is `len(f.buf) < 1` although `size`
-    bytes are sliced: with 1 ≤ len(f.buf) < size, `f.buf[size:]` is a runtime panic. -/
+/-- readInetAdressOnly (frame.go:1883-1903): `len(f.buf) < int(size)` is checked before the `size`
+    bytes are sliced. -/
 def readInetAdressOnly : P Bytes := do
   let szb ← slice 1 1
   let size := (szb.headD 0).toNat
   if !(size == 4 || size == 16) then P.fail
-  else slice 1 size
+  else slice size size
 
 /-- readInet -/
 def readInet : P (Bytes × Int) := do
@@ -235,6 +238,10 @@ def apacheSwitch (c : Bytes) : Nat :=
 /-- helpers.go getApacheCassandraType -/
 def getApacheCassandraType (cls : Bytes) : Nat := apacheSwitch (trimPrefix apachePrefix cls)
 
+/-- `if need > len(f.buf) { panic(fmt.Errorf(..)) }`: an element count that the rest of the body cannot
+    hold (every element takes at least `need / count` bytes) is an error before anything is allocated -/
+def needBytes (need : Nat) : P Unit := fun buf => if need > buf.length then .err else .ok ((), buf)
+
 /-- readTypeInfo (frame.go:872-934). The Go function recurses on the buffer; every call consumes
     at least the 2 bytes of the option id, so `fuel = len(buf)` (see `readTypeInfo`) is never
     exhausted; the `0` case is unreachable from there and answers `err`. -/
@@ -255,12 +262,14 @@ def readTypeInfoF : Nat → P TypeInfo
       else pure { typ := id, custom := [] })
     if simple.typ == typeTuple then do
       let n ← readShort
+      needBytes (2 * n)                    -- `if int(n)*2 > len(f.buf) { panic(error) }`
       let elems ← readN (readTypeInfoF fuel) n
       pure (.tuple simple elems)
     else if simple.typ == typeUDT then do
       let ks ← readString
       let name ← readString
       let n ← readShort
+      needBytes (4 * n)                    -- `if int(n)*4 > len(f.buf) { panic(error) }`
       let fields ← readN (do let fname ← readString; let t ← readTypeInfoF fuel; pure (fname, t)) n
       pure (.udt simple ks name fields)
     else if simple.typ == typeMap then do
@@ -364,8 +373,9 @@ def parseResultMetadata : P ResultMeta := do
     let r ← readMetaTail flags colCount
     pure r.1
 
-/-- `make([]int, pkeyCount)`: a negative length is a runtime panic (makeslice: len out of range) -/
-def makeSlice (n : Int) : P Unit := fun buf => if n < 0 then .crash else .ok ((), buf)
+/-- `if pkeyCount < 0 || pkeyCount*2 > len(f.buf) { panic(error) }` before `make([]int, pkeyCount)` -/
+def checkPkeyCount (n : Int) : P Unit := fun buf =>
+  if n < 0 then .err else if 2 * n.toNat > buf.length then .err else .ok ((), buf)
 
 /-- parsePreparedMetadata (frame.go:951-1005) -/
 def parsePreparedMetadata (proto : Nat) : P PreparedMeta := do
@@ -375,7 +385,7 @@ def parsePreparedMetadata (proto : Nat) : P PreparedMeta := do
   else do
     let pk ← (if proto >= 4 then do
         let pkeyCount ← readInt
-        makeSlice pkeyCount
+        checkPkeyCount pkeyCount
         let l ← readN readShort pkeyCount.toNat
         pure (some l)
       else pure none)
